@@ -205,7 +205,8 @@ def apply_merge_to_shadow(s, other, corr, off):
 
 def new_attrs(rnd):
     a = {'atomname': rnd.choice(['BB', 'SC1', 'CA', 'N', 'O']), 'resname': rnd.choice(['ALA', 'GLY', 'LYS']),
-         'resid': rnd.randint(1, 9), 'charge_group': rnd.randint(1, 9), 'chain': rnd.choice('AB')}
+         'resid': rnd.choice([0, 0, -2]) if rnd.random() < 0.15 else rnd.randint(1, 9),
+         'charge_group': 0 if rnd.random() < 0.1 else rnd.randint(1, 9), 'chain': rnd.choice(['A', 'B', 'A', 'B', ''])}
     if rnd.random() < 0.1:
         del a['resid']
     if rnd.random() < 0.1:
